@@ -14,12 +14,11 @@ var notApplicable = map[string]string{
 // notYet lists properties whose harness is not finished; they are not claimed.
 // wip lists harnesses that are still being built: their checks can be run by hand but are
 // not registered in MANIFEST.json yet.
-var wip = map[string]bool{"dispatch": true}
+var wip = map[string]bool{}
 
 var notYet = map[string]string{
 
-	"C14": "dispatcher harness not finished yet",
-	"C15": "dispatcher harness not finished yet", "C16": "dispatcher harness not finished yet"}
+	}
 
 func writeManifest() {
 	type lvl struct {
